@@ -29,6 +29,21 @@
 #include "stubs/http.h"
 #include "proto/http.h"
 
+/* -DVF_HTTP_MAXN=<n>: bounded variants (full unwinding instead of loop contracts) */
+#ifdef VF_HTTP_MAXN
+#define VF_HTTP_BOUND(n)	VF_ASSUME((n) <= VF_HTTP_MAXN)
+#else
+#define VF_HTTP_BOUND(n)	do { } while (0)
+#endif
+
+#ifdef VF_REPLAY
+/* native replay: ASan rounds malloc(0) up to one byte, so an over-read of an EMPTY span
+ * would go unnoticed; give the empty span a detectable end (last byte of an exact block) */
+#define VF_HTTP_EMPTY_SPAN(p, n)	do { if ((n) == 0) (p) = (uint8_t *)malloc(8) + 8; } while (0)
+#else
+#define VF_HTTP_EMPTY_SPAN(p, n)	do { } while (0)
+#endif
+
 #ifndef VF_REPLAY
 
 #define VF_FRESH_IN(p, n)	__CPROVER_is_fresh((p), (n))
